@@ -29,6 +29,7 @@ class WsConnT:
         self.ticket = None
         self.handler_done = False
         self.proto = []
+        self.on_frame = None
 
     # client side actions
     def send(self, frame):
@@ -70,6 +71,7 @@ class TWebSocket:
             return self.handler(self)
         finally:
             self.conn.handler_done = True
+            self.conn.handler_end_clk = self.sim.tick()
 
     def wait(self):
         c = self.conn
@@ -106,6 +108,8 @@ class TWebSocket:
         c.frames.append({'clk': self.sim.tick(), 't': self.sim.now,
                          'frame': bytes(msg) if isinstance(msg, bytearray)
                          else msg, 'lost': c.vanished})
+        if c.on_frame is not None and not c.vanished:
+            c.on_frame(c, c.frames[-1]['frame'])
 
     def close(self):
         c = self.conn
@@ -241,6 +245,7 @@ class SimT(SimBase):
 
     def _serve(self, t, env):
         calls = []
+        t.c_enter = self.tick()
 
         def start_response(status, headers, exc_info=None):
             calls.append((status, headers))
@@ -335,6 +340,14 @@ class SimT(SimBase):
         for _ in range(n):
             if not self.sched.step():
                 break
+
+    def after(self, dt, fn):
+        def run():
+            vsched.vsleep(self.sched, dt)
+            fn()
+        if dt <= 0:
+            return self.sched.spawn(fn, name='client-now')
+        return self.sched.spawn(run, name='client-timer')
 
     def transport_of(self, sid):
         try:
